@@ -2289,7 +2289,7 @@ func (k *Kernel) loadInitialCommittingView(ctx context.Context, s *kState) error
 	h := s.Committing.Height
 	r := s.Committing.Round
 
-	if h == k.initialHeight || h == k.initialHeight+1 {
+	if h == k.initialHeight {
 		vs = k.initialValSet
 	} else {
 		// Load commit proof at h-1, take next validators.
@@ -2369,11 +2369,13 @@ func (k *Kernel) loadInitialVotingView(ctx context.Context, s *kState) error {
 	h := s.Voting.Height
 	r := s.Voting.Round
 
-	if h == k.initialHeight || h == k.initialHeight+1 {
+	if h == k.initialHeight {
 		vs = k.initialValSet
 	} else {
 		// During initialization, we have set the committing block on the kState value.
-		vs = s.CommittingHeader.ValidatorSet
+		// The voting height uses that header's next validators,
+		// exactly as ShiftVotingToCommitting does while running.
+		vs = s.CommittingHeader.NextValidatorSet
 	}
 
 	if len(vs.Validators) == 0 {
